@@ -37,6 +37,7 @@ def run(ctx):
                       "diff = (C \\ S, S \\ C) with the shortcut only under S = {}")
     ctx.rule("R13.4", "WatchedPath.recursive selects RecursiveMode::Recursive / NonRecursive")
     ctx.rule("R13.5", "lock scope: in the watchexec crate no RwLock/Mutex guard is live across an await or a call through a user-supplied Fn")
+    ctx.rule("R13.10", "CLI plumbing: make_config hands the command line's watch paths to Config::pathset unchanged and selects the poll watcher with the given interval exactly when --poll is given")
     ctx.rule("R13.6", "every public Config setter replaces the value and then calls signal_change")
 
     # ---- R13.1
@@ -317,6 +318,23 @@ def run(ctx):
                     fail="ChangeableFn::replace does not store the new handler (%s): on_action / on_error / filterer replacements have no effect" % rc)
         fnw = _f(r"^watchexec::changeable::ChangeableFn::<T, U>::new$")
         ctx.require(pathx.desc(thir.peel(thir.root(fnw))) == "ChangeableFn{0: Changeable::new(Arc::new(f))}", "R13.6", "changeablefn-new", "ChangeableFn::new wraps the given handler", fnw.loc(fnw.line))
+    except Skip:
+        pass
+
+    # ---- R13.10 CLI plumbing
+    try:
+        mk = ctx.anchor_fn("R13.10", "watchexec_cli::config::make_config")
+        cc = {}
+        for c, nd in thir.calls_in(thir.root(mk)):
+            sg = strip_generics(c)
+            if sg.startswith("watchexec::config::Config::") and not pathx.is_tracing(nd):
+                cc.setdefault(sg.split("::")[-1], []).append([pathx.desc(a) for a in nd["a"]])
+        ctx.require(cc.get("pathset") == [["config", "Clone::clone(args.filtering.paths)"]], "R13.10", "cli-pathset", "the configured path set is the command line's list of paths", mk.loc(mk.line),
+                    detail=str(cc.get("pathset")), fail="make_config does not pass args.filtering.paths to Config::pathset (%s): nothing, or something else, is watched" % cc.get("pathset"))
+        pw = [n for n in thir.find(thir.root(mk), "if") if isinstance(n["c"], dict) and n["c"].get("k") == "letx" and pathx.desc(n["c"]["e"]) == "args.events.poll"]
+        okw = len(pw) == 1 and cc.get("file_watcher") == [["config", "Poll{0: interval.0}"]] and any(strip_generics(c).endswith("Config::file_watcher") for c, _ in thir.calls_in(pw[0]["t"])) \
+            and "Some" in thir.pattern_variants(pw[0]["c"]["p"])
+        ctx.require(okw, "R13.10", "cli-poll-watcher", "--poll <interval> selects Watcher::Poll(interval), otherwise the default (native) watcher stays", mk.loc(mk.line), detail=str(cc.get("file_watcher")))
     except Skip:
         pass
 
